@@ -93,8 +93,24 @@ def main(argv=None):
         only = a.rule
         if a.replay:
             data = json.load(open(a.replay))
+            keys = {f["key"] for f in data.get("findings", [])}
             rules = sorted({f["rule"] for f in data.get("findings", [])})
             print(f"replaying {prop}: rules {rules} on the current tree")
+            ctx = Ctx(Repo(), a.tier)
+            again = []
+            for rid in rules:
+                _, results, violations, hits = decide(prop, a.tier, only_rule=rid, ctx=ctx)
+                for f in violations:
+                    print("  " + ("[same finding] " if f.key in keys else "[new finding]  ") + f.text())
+                    again.append(f)
+                for r in results:
+                    if r.error:
+                        print(f"  ANALYSIS-ERROR {r.rule}: {r.error}")
+            if again:
+                print(f"VIOLATION property={prop} replay={a.replay}")
+                return 1
+            print(f"OK property={prop}: the recorded findings do not reproduce on the current tree")
+            return 0
         ctx, results, violations, hits = decide(prop, a.tier, only_rule=only)
         selfval = None
         if a.tier == "thorough" and not a.replay and not only:
